@@ -8,8 +8,9 @@
                                  recogniser for (gen/K_sd.k_sid_regex, compared with the expected literal by C08_regex;
                                  C08_grammar says which language sid_match accepts); any other pattern has no meaning here
                                  (falls through to the builtins: TypeError). The result is a match object (truthy) or None;
-   * int(s) on a str          := Model.SecDesc.py_int (value of a non-empty run of ASCII digits, ValueError otherwise;
-                                 Python's int() accepts more strings, see the comment at py_int);
+   * int(s) on a str          := Model.SecDesc.py_int (value of a non-empty run of at most 4300 ASCII digits, CPython's
+                                 sys.int_max_str_digits default, leading zeros counted; ValueError otherwise; Python's
+                                 int() accepts more strings, none of which passes the regex: see the comment at py_int);
    * s.split(sep), one-character sep := Model.SecDesc.split_on;
    * setitem(data, i, v)      := what vlib/flow.py writes for the subscript store  data[i] = v  on a bytearray
                                  (ValueError for v outside range(256), then IndexError, negative indices allowed).
